@@ -274,6 +274,12 @@ func verifyHeaderRules(c *an.Ctx, setExplanation bool) {
 		if _, isMap := l.X.Type().Underlying().(*types.Map); !isMap {
 			return false
 		}
+		// keyed by the identity of a listed key (vconfig.PubkeyID(bookkeeper)): other presence tests - the peer
+		// table lookup itself, lookups inside helpers - are not membership tests
+		kc, isCall := an.Origin(l.Index).(*ssa.Call)
+		if !isCall || kc.Call.StaticCallee() == nil || kc.Call.StaticCallee().Name() != "PubkeyID" {
+			return false
+		}
 		memberMap = l.X
 		return true
 	}}
